@@ -13,6 +13,7 @@ import (
 	"path/filepath"
 	"runtime"
 	"strconv"
+	"strings"
 	"time"
 
 	"github.com/whoisnian/glb/logger"
@@ -29,7 +30,8 @@ var levelNames = []string{"DEBUG", "INFO", "WARN", "ERROR", "FATAL"}
 type Case struct {
 	Rec       attrgen.Rec `json:"rec"`
 	AddSource bool        `json:"add_source,omitempty"`
-	Via       int         `json:"via"` // 0 Logger.Log, 1 level method, 2 LogAttrs, 3 Handler.Handle with a chosen time
+	Via       int         `json:"via"`              // 0 Logger.Log, 1 level method, 2 LogAttrs, 3 Handler.Handle with a chosen time, 4 Logf / level-f methods (record attributes dropped)
+	Decoys    bool        `json:"decoys,omitempty"` // derive sibling loggers from every parent of the chain
 	TimeNs    int64       `json:"time_ns,omitempty"`
 	ZoneSec   int         `json:"zone_sec,omitempty"`
 }
@@ -85,6 +87,19 @@ func emit(l *logger.Logger, cs Case, args []any) (line int) {
 			attrs = append(attrs, n.Attr())
 		}
 		l.LogAttrs(ctx, levels[cs.Rec.Level], msg, markA(&line, attrs)...)
+	case 4: // formatted message, no attributes of its own
+		switch cs.Rec.Level {
+		case 0:
+			l.Debugf("%s", mark(&line, []any{msg})...)
+		case 1:
+			l.Infof("%s", mark(&line, []any{msg})...)
+		case 2:
+			l.Warnf("%s", mark(&line, []any{msg})...)
+		case 3:
+			l.Errorf("%s", mark(&line, []any{msg})...)
+		default:
+			l.Logf(ctx, levels[cs.Rec.Level], "%s", mark(&line, []any{msg})...)
+		}
 	default:
 		l.Log(ctx, levels[cs.Rec.Level], msg, mark(&line, args)...)
 	}
@@ -106,6 +121,9 @@ func runCase(cs Case, st *stats) (key, expected, observed string) {
 }
 
 func runOnce(cs Case, st *stats) (key, expected, observed string) {
+	if cs.Via == 4 {
+		cs.Rec.Attrs = nil // the f-methods take no attributes
+	}
 	var out capture
 	var h logger.Handler = logger.NewJsonHandler(&out, logger.NewOptions(logger.LevelDebug, false, cs.AddSource))
 	var pv any
@@ -133,7 +151,12 @@ func runOnce(cs Case, st *stats) (key, expected, observed string) {
 			h.Handle(ctx, r)
 			return
 		}
-		l := attrgen.Derive(logger.New(h), cs.Rec.Chain)
+		var l *logger.Logger
+		if cs.Decoys {
+			l = attrgen.DeriveDecoy(logger.New(h), cs.Rec.Chain)
+		} else {
+			l = attrgen.Derive(logger.New(h), cs.Rec.Chain)
+		}
 		args := attrgen.Args(cs.Rec.Attrs)
 		t0 = time.Now()
 		line = emit(l, cs, args)
@@ -264,6 +287,10 @@ func (mon) Plan(prop, tier string, seed int64) []drv.Shard {
 		out = append(out, drv.Shard{Name: fmt.Sprintf("shape-%d", p), Args: a})
 		a, _ = json.Marshal(shardArgs{Kind: "rand", Part: p, Parts: parts, Count: nrand / parts})
 		out = append(out, drv.Shard{Name: fmt.Sprintf("rand-%d", p), Args: a})
+		if p < 4 {
+			a, _ = json.Marshal(shardArgs{Kind: "sibling", Part: p, Parts: 4})
+			out = append(out, drv.Shard{Name: fmt.Sprintf("sibling-%d", p), Args: a})
+		}
 	}
 	return out
 }
@@ -276,7 +303,7 @@ func strCase(s string, i int) Case {
 	if len(b) > 0 {
 		rec.Chain = append(rec.Chain, attrgen.ChainOp{IsGrp: true, Group: b})
 	}
-	return Case{Rec: rec, Via: i % 3, AddSource: i%7 == 0}
+	return Case{Rec: rec, Via: []int{0, 1, 2, 4, 0, 1}[i%6], Decoys: i%2 == 0, AddSource: i%7 == 0}
 }
 
 func (mn mon) Run(sh drv.Shard, c *drv.Ctx) {
@@ -312,7 +339,7 @@ func (mn mon) Run(sh drv.Shard, c *drv.Ctx) {
 			if idx%a.Parts != a.Part {
 				return true
 			}
-			cs := Case{Rec: r, Via: idx / a.Parts % 4, AddSource: idx%5 == 0, TimeNs: int64(idx) * 1000003, ZoneSec: (idx%27 - 13) * 3600}
+			cs := Case{Rec: r, Decoys: idx%3 == 0, Via: idx / a.Parts % 5, AddSource: idx%5 == 0, TimeNs: int64(idx) * 1000003, ZoneSec: (idx%27 - 13) * 3600}
 			if cs.Via == 2 {
 				cs.Via = 0 // LogAttrs cannot carry pair arguments; shapes use attrs only, keep Log
 			}
@@ -321,11 +348,43 @@ func (mn mon) Run(sh drv.Shard, c *drv.Ctx) {
 			}
 			return exec(cs, attrgen.ShapeKey(r))
 		})
+	case "sibling":
+		// chains whose parents carry pre-rendered bytes of every length 0..200 (every spare
+		// capacity the append growth policy yields), with decoy siblings derived from each parent
+		idx := 0
+		for pad := 0; pad <= 200; pad++ {
+			for variant := 0; variant < 6; variant++ {
+				idx++
+				if idx%a.Parts != a.Part {
+					continue
+				}
+				str := func(k, v string) attrgen.Node {
+					return attrgen.Node{Key: []byte(k), Val: &attrgen.Val{T: "str", B: []byte(v)}}
+				}
+				chain := []attrgen.ChainOp{{Attrs: []attrgen.Node{str("p", strings.Repeat("P", pad))}}}
+				if variant >= 2 {
+					chain = append(chain, attrgen.ChainOp{IsGrp: true, Group: []byte("pg")})
+				}
+				if variant >= 4 {
+					chain = append(chain, attrgen.ChainOp{Attrs: []attrgen.Node{str("q", "7")}})
+				}
+				if variant%2 == 0 {
+					chain = append(chain, attrgen.ChainOp{Attrs: []attrgen.Node{str("c1", "aaaaaa")}})
+				} else {
+					chain = append(chain, attrgen.ChainOp{IsGrp: true, Group: []byte("ga")})
+				}
+				rec := attrgen.Rec{Chain: chain, Msg: []byte("m"), Level: 1, Attrs: []attrgen.Node{str("x", "1")}}
+				cs := Case{Rec: rec, Decoys: true, Via: idx % 3}
+				if !exec(cs, fmt.Sprintf("sibling pad=%d v=%d", pad, variant)) {
+					return
+				}
+			}
+		}
 	case "rand":
 		r := rand.New(rand.NewSource(sh.Seed*1000003 + int64(a.Part)))
 		for i := 0; i < a.Count; i++ {
 			rec := attrgen.RandRec(r)
-			cs := Case{Rec: rec, Via: r.Intn(4), AddSource: r.Intn(3) == 0, TimeNs: r.Int63n(7e18), ZoneSec: (r.Intn(27) - 13) * 1800}
+			cs := Case{Rec: rec, Via: r.Intn(5), Decoys: r.Intn(2) == 0, AddSource: r.Intn(3) == 0, TimeNs: r.Int63n(7e18), ZoneSec: (r.Intn(27) - 13) * 1800}
 			if cs.Via == 2 {
 				for i := range cs.Rec.Attrs {
 					cs.Rec.Attrs[i].Pair = false
